@@ -90,6 +90,8 @@ def run(ctx):
         g = groups.setdefault(json.dumps(key, sort_keys=True), [key, 0, rec, set()])
         g[1] += 1
         if rec["kind"] == "crash":
+            if byid[rec["id"]]["parts"] > byid[g[2]["id"]]["parts"]:
+                g[2] = rec      # show the example that loses most
             g[3].add(byid[rec["id"]]["zone"] + ("*" if byid[rec["id"]]["cls"]["torn"] else ""))
     for _, (key, n, rec, zones) in sorted(groups.items()):
         if rec["kind"] == "crash":
